@@ -54,6 +54,9 @@ pub struct Plan {
     pub entropy: u64,
     /// images longer than this are cut (quick: 48 KB, thorough: 160 KB)
     pub max_image: usize,
+    /// configuration of the rasn backend for this run (None = the default configuration)
+    #[serde(default)]
+    pub cfg: Option<RasnCfg>,
 }
 
 const SECTOR: usize = 512;
@@ -294,7 +297,7 @@ impl Scenario for C08Images {
             };
             cases.push(Case { image, file: f.chance(2, 5) });
         }
-        let p = Plan { seed, base, other, cases, stack_kb: *root.fork("layout").pick(&[2048usize, 8192]), entropy: root.fork("hashkeys").next_u64(), max_image: if tier == Tier::Quick { 48 * 1024 } else { 160 * 1024 } };
+        let p = Plan { seed, base, other, cases, stack_kb: *root.fork("layout").pick(&[2048usize, 8192]), entropy: root.fork("hashkeys").next_u64(), max_image: if tier == Tier::Quick { 48 * 1024 } else { 160 * 1024 }, cfg: { let mut c = root.fork("config"); if c.chance(1, 2) { Some(RasnCfg::random(&mut c)) } else { None } } };
         serde_json::to_value(&p).unwrap()
     }
 
@@ -312,7 +315,8 @@ impl Scenario for C08Images {
             Base::Corpus(pth) => format!("corpus:{}", pth.rsplit('/').next().unwrap_or("")),
             Base::Text(t) => format!("generated:{}B", t.len()),
         };
-        let backends = [BackendSel::Rasn(RasnCfg::default_cfg()), BackendSel::Ts];
+        // every option of the rasn backend is a code path of its own: half of the runs draw one
+        let backends = [BackendSel::Rasn(p.cfg.clone().unwrap_or_else(RasnCfg::default_cfg)), BackendSel::Ts];
         let mut digest = String::new();
         for (ci, case) in p.cases.iter().enumerate() {
             let other_view: &[u8] = match &case.image {
